@@ -368,3 +368,22 @@ VARIANTS += [
     V('C14-M21', 'M', ('C14', 'C13'), SP, 'Server.create', r'if ident not in self\.id_to_refcount:\n\s+(self\.id_to_refcount\[ident\] = 0)', r'\1', ('C14-6', 'C13-4'), note='seeded C14-m2 / C13-m1 shape'),
     V('C07-M20', 'M', ('C07', 'C05'), ST, 'fifo_stream', r'tasks = SingleLane\(capacity \+ 1\)', 'tasks = SingleLane(capacity)', ('C07-5', 'C05-4'), note='seeded C07-r2m2 shape'),
 ]
+
+# ---------------------------------------------------------------------- refactor-level rewrites, second batch
+VARIANTS += [
+    V('G-rf-33', 'E', ALL, SL, 'EnsembleServlet._dequeue', r'uid, y = v\n', 'uid = v[0]\n                    y = v[1]\n'),
+    V('G-rf-34', 'E', ALL, SL, 'EnsembleServlet._dequeue', r'z = catalog\.get\(uid\)\n(\s+)if z is None:\n(?:\s+#[^\n]*\n)*(\s+)continue', r'if uid not in catalog:\n\2continue\n\1z = catalog[uid]'),
+    V('G-rf-35', 'E', ALL, SL, 'EnsembleServlet._dequeue', r"z\['n'\] \+= 1", "z['n'] = z['n'] + 1"),
+    V('G-rf-36', 'E', ALL, SL, 'EnsembleServlet._dequeue', r"elif z\['n'\] == nn:", "elif z['n'] >= nn:"),
+    V('G-rf-37', 'E', ALL, SL, 'EnsembleServlet._enqueue', r'uid, x = z\n', 'uid = z[0]\n            x = z[1]\n'),
+    V('G-rf-38', 'E', ALL, SL, 'EnsembleServlet._enqueue', r"z = (\{'y': \[None\] \* nn, 'n': 0\})\n((?:\s+#[^\n]*\n)*)\s+catalog\[uid\] = z", r'\2            catalog[uid] = \1'),
+    V('G-rf-39', 'E', ALL, SL, 'SwitchServlet._enqueue', r'idx = self\.switch\(x\)\n\s+qins\[idx\]\.put\(\(uid, x\)\)', 'qins[self.switch(x)].put((uid, x))'),
+    V('G-rf-40', 'E', ALL, SV, 'Server._gather_output', r'try:\n(\s+)fut = pipeline\.pop\(uid\)\n\s+except KeyError:\n((?:\s+#[^\n]*\n)*)(\s+)logger\.warning\(', r'fut = pipeline.pop(uid, None)\n                if fut is None:\n\2\3logger.warning(', note='unknown id tolerated through pop(uid, None)'),
+    V('G-rf-41', 'E', ALL, QS, 'SingleLane.put', r'if 0 < self\.maxsize <= len\(self\._queue\):', 'if self.maxsize > 0 and len(self._queue) >= self.maxsize:'),
+    V('G-rf-42', 'E', ALL, QS, 'SingleLane.get', r'if len\(self\._queue\) == 0:', 'if not self._queue:'),
+    V('G-rf-43', 'E', ALL, QS, 'SingleLane.put', r'if not block:\n(\s+)raise Full\n\s+if not self\._not_full\.wait\(timeout=timeout\):\n\s+raise Full', r'if not block or not self._not_full.wait(timeout=timeout):\n\1raise Full'),
+    V('G-rf-44', 'E', ALL, QS, 'SingleLane.get', r'(self\._not_full\.notify\(\)\n)        return z', r'\1            return z'),
+    V('G-rf-45', 'E', ALL, TH, 'Thread.run', r'z = self\._target\(\*self\._args, \*\*self\._kwargs\)\n\s+self\._future_\.set_result\(z\)', 'self._future_.set_result(self._target(*self._args, **self._kwargs))'),
+    V('G-rf-46', 'E', ALL, TH, 'Thread.run', r'if e\.code is None:\n(\s+)self\._future_\.set_result\(None\)\n\s+else:\n\s+if isinstance\(e\.code, int\):\n\s+if e\.code == 0:\n\s+self\._future_\.set_result\(None\)\n\s+else:\n\s+self\.handle_exception\(e\)\n\s+self\._future_\.set_exception\(e\)\n\s+else:\n\s+self\.handle_exception\(e\)\n\s+self\._future_\.set_exception\(e\)', r'if e.code is None or (isinstance(e.code, int) and e.code == 0):\n\1self._future_.set_result(None)\n            else:\n\1self.handle_exception(e)\n\1self._future_.set_exception(e)', note='SystemExit cases flattened'),
+    V('G-rf-47', 'E', ALL, TH, 'Thread.join', r'if self\._future_\.exception\(\):\n(\s+)raise self\._future_\.exception\(\)', r'exc = self._future_.exception()\n        if exc:\n\1raise exc'),
+]
